@@ -24,6 +24,9 @@ func genCase(t *rapid.T) Case {
 		return c
 	}
 	c.Err = gen.ErrSpec(10).Draw(t, "err")
+	if c.Path == "direct" && len(c.Err.Layers) > 0 && rapid.Bool().Draw(t, "recheck-inner") {
+		c.Inner = 1 + rapid.IntRange(0, len(c.Err.Layers)-1).Draw(t, "inner")
+	}
 	return c
 }
 
